@@ -82,16 +82,22 @@ def markup_runs(ctx, rnd):
         # (what a new template object on the same file returns)
         import codecs
         import itertools
-        encs = ["utf-8", "utf-16", "utf-8-sig", "utf-32", "utf-16-le"]
+        encs = ["utf-8", "utf-16", "utf-8-sig", "utf-32", "utf-16-le", "gb18030"]
+
+        def mk(enc, text):
+            """the bytes of a file holding `text` in the encoding, with the byte-order mark the encoding is known by"""
+            if enc == "utf-16-le":
+                return codecs.BOM_UTF16_LE + text.encode(enc)
+            if enc == "gb18030":
+                return b"\x84\x31\x95\x33" + text.encode(enc)
+            return text.encode(enc)
         seqs = list(itertools.permutations(encs, 2)) + [("utf-8", "utf-16", "utf-8"), ("utf-16", "utf-8-sig", "utf-32", "utf-8")]
         for seq in seqs:
             path = os.path.join(d, "h.txt")
             t = None
             for k, enc in enumerate(seq):
                 src = "v%d <%s> ${x} $$ é" % (k, enc)
-                data = src.encode(enc)
-                if enc == "utf-16-le":
-                    data = codecs.BOM_UTF16_LE + data
+                data = mk(enc, src)
                 open(path, "wb").write(data)
                 os.utime(path, (1000 + 10 * k, 1000 + 10 * k))
                 n += 1
@@ -101,7 +107,8 @@ def markup_runs(ctx, rnd):
                     got = t.render(x=val)
                     fresh = PageTextTemplateFile(path).render(x=val)
                     text = "v%d <%s> %s $ é" % (k, enc, val)
-                    if got != fresh or got.decode(enc).lstrip("\ufeff") != text:
+                    # (the output is the file's bytes with the interpolations filled in: same encoding, same mark)
+                    if got != fresh or got != mk(enc, text):
                         ctx.violation("text file template, file rewritten in the encodings %s: render %d returns %r; a new template on the "
                                       "file returns %r (text %r in %s)" % (list(seq), k + 1, got, fresh, text, enc),
                                       dict(kind="textmode-file-history", encodings=list(seq)))
